@@ -197,7 +197,9 @@ func RunCheck(o CheckOpts) int {
 		replayDir = filepath.Join(tmp, "replay")
 	}
 	os.RemoveAll(outDir)
+	SkipRetry = func(obl string) bool { return known.match(o.Prop, oblClass(obl)) != nil }
 	srs := SolveAll(g, header, results, outDir, o.Par, timeout, o.Tier == "thorough")
+	SkipRetry = nil
 	for _, r := range results {
 		// assumptions registered while the per-function headers were assembled (instance axioms about literals)
 		for _, a := range r.Assumed {
